@@ -159,13 +159,21 @@ impl SubSocket {
         let message: ZmqMessage = SubSocketBackend::create_subs_message(subscription, msg_type);
         let mut iter = self.backend.peers.begin_async().await;
 
+        // A failure on one peer's connection must not keep the others from being told.
+        let mut result = Ok(());
         while let Some(mut peer) = iter {
-            peer.send_queue
+            if let Err(e) = peer
+                .send_queue
                 .send(Message::Message(message.clone()))
-                .await?;
+                .await
+            {
+                if result.is_ok() {
+                    result = Err(e.into());
+                }
+            }
             iter = peer.next_async().await;
         }
-        Ok(())
+        result
     }
 }
 
